@@ -4,6 +4,7 @@ import (
 	"bytes"
 	"fmt"
 	"io"
+	"math"
 	"unicode/utf8"
 )
 
@@ -46,6 +47,9 @@ func (d *Decoder) decodeTypedUint() (Type, uint64, error) {
 		nfollow = 4
 	case 27:
 		nfollow = 8
+	case 28, 29, 30, 31:
+		// 28-30 are reserved and 31 means indefinite length, which this decoder does not support.
+		return t, 0, fmt.Errorf("cbor: Unsupported additional information value %d", ai)
 	default:
 		nfollow = 0
 	}
@@ -95,6 +99,10 @@ func (d *Decoder) decodeBytesOfType(expected Type) ([]byte, error) {
 	n, err := d.decodeOfType(expected)
 	if err != nil {
 		return nil, err
+	}
+	if n > math.MaxInt64 {
+		// int64(n) would be negative and io.CopyN would copy nothing without reporting an error.
+		return nil, fmt.Errorf("cbor: String length %d is too large", n)
 	}
 	bs := new(bytes.Buffer)
 	if _, err := io.CopyN(bs, d.r, int64(n)); err != nil {
